@@ -23,14 +23,16 @@ import lib
 
 LEVEL = "model_checking"
 ASSUME = [
-    "the pipe's mutex makes every loop body of Read/Write one atomic step; sync.Cond.Wait releases the mutex and parks atomically",
+    "the pipe's mutex makes every loop body of Read/Write one atomic step; sync.Cond.Wait releases the mutex and parks atomically; "
+    "the timer callback takes the mutex (fix 90f21f9), TimerUnlocked = FALSE",
     "exhaustive for <= 2 readers, <= 2 writers, payloads and targets of 0..2 units, <= 3 reads/writes/control calls, time 1..3",
     "Write back-pressure is exercised with recvBufferSizeLimit lowered through a build overlay (const -> var, same default)",
     "replayed behaviours never let the Go scheduler decide an outcome (no Write while two readers are parked, no Read while two writers are parked)",
 ]
 KEYS = {"pipe-bytes-wrong", "pipe-eof-early", "pipe-eof-missing", "pipe-timeout-wrong", "pipe-lost-wakeup",
         "pipe-write-blocked-wrong", "pipe-write-result-wrong",
-        # the defect of the unchanged code that StreamPipe.tla shows with TimerUnlocked = TRUE (stress only, on dump evidence)
+        # defect D19 (fixed by 90f21f9; StreamPipe.tla's negative config TimerUnlocked = TRUE): real-goroutine stress only,
+        # on goroutine-dump evidence - an ordinary violation key
         "pipe-lost-wakeup:timer-fires-before-wait"}
 # what a pipe-level finding means for C03 (end-of-stream / wake-up of blocked reads); the rest is outside C03's statement
 C03_KEYMAP = {"pipe-bytes-wrong": "bytes-wrong", "pipe-eof-early": "eof-early", "pipe-eof-missing": "eof-missing",
@@ -62,7 +64,7 @@ def _mc_subst(mode, q, neg=False):
 
 
 def _mc(ctx, mode):
-    """the intended design (timer broadcast cannot fall between arming and Wait): every invariant holds"""
+    """the code (TimerUnlocked = FALSE: the timer broadcasts under the mutex): every invariant holds"""
     s = _mc_subst(mode, ctx.quick())
     s.update({"DEV": "{{}}", "UNLOCKED": "FALSE", "INVS": "NoLostWakeup TimerCovers"})
     r = lib.run_tlc(ctx, "StreamPipe", "StreamPipe_mc.cfg", s, tag="mc_" + mode, workers=TLCW if ctx.quick() else max(TLCW, lib.NCPU // 2), timeout=3000)
@@ -70,23 +72,23 @@ def _mc(ctx, mode):
     return {"mode": mode, "timer_unlocked": False, "distinct": r.distinct, "generated": r.generated, "constants": s}
 
 
-def _mc_ascode(ctx, mode):
-    """TimerUnlocked = TRUE, the code as it is: everything but the deadline clause of (d) and (e) holds ..."""
+def _mc_unlocked(ctx, mode):
+    """negative config TimerUnlocked = TRUE (the code before fix 90f21f9): everything but the deadline clause of (d) and (e) holds ..."""
     s = _mc_subst(mode, True)
     s.update({"DEV": "{{}}", "UNLOCKED": "TRUE", "INVS": "NoLostWakeupData"})
-    r = lib.run_tlc(ctx, "StreamPipe", "StreamPipe_mc.cfg", s, tag="mc_ascode_" + mode, workers=TLCW, timeout=1500)
-    lib.require_ok(r, "StreamPipe as the code (%s)" % mode)
+    r = lib.run_tlc(ctx, "StreamPipe", "StreamPipe_mc.cfg", s, tag="mc_unlocked_" + mode, workers=TLCW, timeout=1500)
+    lib.require_ok(r, "StreamPipe with TimerUnlocked (%s)" % mode)
     return {"mode": mode, "timer_unlocked": True, "distinct": r.distinct, "generated": r.generated, "constants": s,
             "invariants": "all but NoLostWakeup's deadline clause and TimerCovers"}
 
 
-def _mc_defect(ctx):
-    """... and those two fail: the schedule TLC prints is the defect (reported on the code by the stress, on evidence)"""
+def _neg_unlocked(ctx):
+    """... and those two fail: TLC's schedule is the non-vacuity witness for (d)/(e) against an unlocked timer broadcast (D19)"""
     out = {}
     for inv in ("NoLostWakeup", "TimerCovers"):
         s = _mc_subst("stream", True)
         s.update({"DEV": "{{}}", "UNLOCKED": "TRUE", "INVS": inv, "READERS": "{r1}", "WRITERS": "{w1}"})
-        r = lib.run_tlc(ctx, "StreamPipe", "StreamPipe_mc.cfg", s, tag="mc_defect_" + inv, workers=2, timeout=600, expect_violation=True)
+        r = lib.run_tlc(ctx, "StreamPipe", "StreamPipe_mc.cfg", s, tag="neg_TimerUnlocked_" + inv, workers=2, timeout=600, expect_violation=True)
         if r.violated != inv:
             raise lib.Inconclusive("StreamPipe with TimerUnlocked = TRUE is expected to violate %s (timer fires between "
                                    "broadcastAfter and Wait) but TLC reports %r: model changed" % (inv, r.violated))
@@ -243,8 +245,8 @@ def run(ctx):
     later = {}
 
     def more(pool):     # queued behind the generators: the replay needs those first
-        later["mc"] = [pool.submit(_mc, ctx, m) for m in ("stream", "datagram")] + [pool.submit(_mc_ascode, ctx, m) for m in (("stream",) if q else ("stream", "datagram"))]
-        later["defect"] = pool.submit(_mc_defect, ctx)
+        later["mc"] = [pool.submit(_mc, ctx, m) for m in ("stream", "datagram")] + [pool.submit(_mc_unlocked, ctx, m) for m in (() if q else ("stream", "datagram"))]
+        later["defect"] = pool.submit(_neg_unlocked, ctx)
         later["neg"] = [pool.submit(_neg, ctx, fl, inv, "datagram" if i % 2 else "stream") for i, (fl, inv) in enumerate(NEG)]
 
     with ThreadPoolExecutor(max_workers=1) as sx, ThreadPoolExecutor(max_workers=TLCJOBS) as pool:
@@ -257,10 +259,11 @@ def run(ctx):
     for m in mcs:
         ctx.log("StreamPipe %-8s TimerUnlocked=%-5s exhaustive: %d distinct states (view without last/nret, symmetric threads)"
                 % (m["mode"], m["timer_unlocked"], m["distinct"]))
-    ctx.log("negative configs: %d/%d violate their invariant" % (len(negs), len(NEG)))
-    ctx.log("model of the code as it is (TimerUnlocked=TRUE) violates NoLostWakeup and TimerCovers: " + " | ".join(defect["NoLostWakeup"][-4:]))
-    cov["model_defect_timer_fires_before_wait"] = defect
-    ctx.log("stress: %d trials, %d violations, %d unjudged" % (st["stats"].get("trials", 0), len(st.get("violations", [])), st["stats"].get("unjudged", 0)))
+    ctx.log("negative configs: %d/%d violate their invariant" % (len(negs) + len(defect), len(NEG) + 2))
+    ctx.log("negative config TimerUnlocked=TRUE (code before fix 90f21f9) violates NoLostWakeup and TimerCovers: " + " | ".join(defect["NoLostWakeup"][-4:]))
+    cov["negative_config_timer_unlocked"] = defect
+    ctx.log("stress: %d trials (%d of them reads entered microseconds before their deadline), %d violations, %d unjudged"
+            % (st["stats"].get("trials", 0), st["stats"].get("imminent_trials", 0), len(st.get("violations", [])), st["stats"].get("unjudged", 0)))
     cov.update({"rule": RULE, "exhaustive": True, "model_checked": mcs, "negative_configs": negs,
                 "stress_trials": st["stats"].get("trials", 0), "stress_unjudged": st["stats"].get("unjudged", 0)})
     cov["evaluations"] += st["stats"].get("trials", 0)
